@@ -19,4 +19,16 @@ def obligations(tier):
                         fork_max=16, native_replay=True,
                         bounds='2 REQUIRED columns x 2 pages of 3 rows (%s), batch_size 3, num_threads 1..3; every order of the per-column iterations of both OpenMP loops; '
                                'one interfering seek at every unlocked fread of the shared stream (%s mode)' % (cn, MODES[om])))
+    H2 = 'harness/e2/c07_init.c'
+    ISTUBS = ['lazy-init race: globals restarted from every prefix of the initialiser\'s store sequence (x86-TSO visibility order); real hardware reordering / compiler reordering of plain stores not modelled',
+              'cpuid: no SIMD features']
+    # crc32: 2048 table stores + flag = 2049 stores: all prefixes near the ends and table boundaries, every 16th in between
+    for kb, ks, nk, tag in ([(0, 1, 24, 'first'), (2030, 1, 24, 'last'), (240, 1, 32, 'table-boundary'), (0, 64, 34, 'every64')] if q else
+                            [(0, 1, 64, 'first'), (1990, 1, 64, 'last'), (224, 1, 64, 'table-boundary-1'), (480, 1, 64, 'table-boundary-2'), (0, 16, 130, 'every16')]):
+        o.append(E2('lazy-init/crc32/%s' % tag, H2, defines=['-DWHICH=0', '-DKBASE=%d' % kb, '-DKSTEP=%d' % ks, '-DNK=%d' % nk], all_lib=True, timeout=900, stubs=ISTUBS,
+                    bounds='carquet_crc32 first use; another thread k stores into crc32_init_tables for k = %d + %d*i, i < %d (of 2049 stores)' % (kb, ks, nk)))
+    o.append(E2('lazy-init/dispatch', H2, defines=['-DWHICH=1', '-DKBASE=0', '-DKSTEP=1', '-DNK=80'], all_lib=True, timeout=900, stubs=ISTUBS,
+                bounds='carquet_dispatch_* first use; another thread k stores into carquet_simd_dispatch_init / cpu detection for every k (<= 80 stores)'))
+    o.append(E2('lazy-init/cpu-info', H2, defines=['-DWHICH=2', '-DKBASE=0', '-DKSTEP=1', '-DNK=64'], all_lib=True, timeout=900, stubs=ISTUBS,
+                bounds='carquet_get_cpu_info / carquet_init first use; another thread k stores into the initialiser for every k'))
     return o
